@@ -1,7 +1,7 @@
 (** * Proofs for Model/MultiSource.v (property C18)
 
     Structure: graph queries = triple semantics ([related_spec]); the join walk is complete for declared paths
-    ([walk_now], [walk_prev], [dep_targets_complete]); ProcessChanges without LatestOnly ([changes_plain]);
+    ([walk_now], [walk_prev], [dep_targets_complete]); ProcessChanges ([changes_plain], [changes_gen] for LatestOnly);
     one ReadEntities call: at every persisted token everything below it was delivered ([page_safe]); a run
     ([inc_pages_safe]); histories: invariant [hinv] over [exec] ([step_inv]) giving [tokens_safe] and
     [complete]; a run that does not move a token had nothing to read ([fixpoint_caught_up]); [main_only];
@@ -1435,3 +1435,160 @@ Proof.
   - destruct (dedup_deps_In (declared ++ flat_map (fun d => suffix_deps main (d_joins d)) declared) [] d) as [H|[]]; auto.
     apply in_or_app. now left.
 Qed.
+
+(** * more facts about runs, used by the link between agreement and the executable spec *)
+Lemma tok_set_In : forall l k z k' z', In (k', z') (tok_set l k z) -> (k', z') = (k, z) \/ In (k', z') l.
+Proof.
+  induction l as [|[k0 z0] l IH]; intros k z k' z' H; cbn [tok_set] in H.
+  - destruct H as [H|[]]; auto.
+  - destruct (Nat.eqb k k0).
+    + destruct H as [H|H]; auto. right. now right.
+    + destruct (Nat.ltb k k0).
+      * destruct H as [H|H]; auto.
+      * destruct H as [H|H]; [right; now left|]. destruct (IH _ _ _ _ H); auto. right. now right.
+Qed.
+
+Definition deps_in (h : hub) (tk : tokens) : Prop :=
+  forall k z, In (k, z) (t_deps tk) -> 0 <= z <= lenz (feed_of h k).
+
+Lemma deps_in_dtok : forall h tk ds, deps_in h tk -> 0 <= dtok tk ds <= lenz (feed_of h ds).
+Proof.
+  intros h tk ds H. unfold dtok. unfold deps_in in H. induction (t_deps tk) as [|[k z] l IH]; cbn [tok_get].
+  - unfold lenz. lia.
+  - destruct (Nat.eqb ds k) eqn:E.
+    + apply Nat.eqb_eq in E. subst. apply H. now left.
+    + apply IH. intros k' z' Hin. apply H. now right.
+Qed.
+
+Section More.
+  Variables (v : variant) (c : cfg) (h : hub) (b : nat).
+  Hypothesis Hb : (1 <= b)%nat.
+
+  Lemma dep_step_deps_in : forall tk0 d dp later cs d',
+    deps_in h tk0 -> deps_in h d -> dep_step v c h tk0 b d dp later = (cs, d') ->
+    deps_in h d' /\ forall k, In k cs -> deps_in h (k_tok k).
+  Proof.
+    intros tk0 d dp later cs d' H0 Hd H. unfold dep_step in H.
+    destruct (changes (feed_of h (d_ds dp)) (dtok tk0 (d_ds dp)) b (c_latest c)) as [[vs sk] cont] eqn:Ech.
+    match type of H with context [split_chunks b ?ts [] 0] => destruct (split_chunks b ts [] 0) as [full rem] end.
+    injection H as <- <-.
+    pose proof (deps_in_dtok h tk0 (d_ds dp) H0) as Hr.
+    apply changes_gen in Ech; [|auto|lia]. destruct Ech as (H1 & H2 & _).
+    set (d1 := if match f_shared v with SharedEager => false | SharedSnapshot => existsb (same_ds (d_ds dp)) later end
+               then d else mkTok (t_main d) (tok_set (t_deps d) (d_ds dp) cont)).
+    assert (Hd1 : deps_in h d1).
+    { unfold d1. destruct (match f_shared v with SharedEager => false | SharedSnapshot => existsb (same_ds (d_ds dp)) later end); auto.
+      intros k z Hin. cbn [t_deps] in Hin. apply tok_set_In in Hin. destruct Hin as [[= -> ->]|Hin]; [lia|auto]. }
+    split; auto. intros k Hk. apply in_app_or in Hk. destruct Hk as [Hk|Hk].
+    - apply in_map_iff in Hk. destruct Hk as (es & <- & _). auto.
+    - destruct rem; [destruct Hk|]. destruct Hk as [<-|[]]. auto.
+  Qed.
+
+  Lemma deps_steps_deps_in : forall tk0 rest d cs d2,
+    deps_in h tk0 -> deps_in h d -> deps_steps v c h tk0 b d rest = (cs, d2) ->
+    deps_in h d2 /\ forall k, In k cs -> deps_in h (k_tok k).
+  Proof.
+    intros tk0. induction rest as [|dp rest IH]; intros d cs d2 H0 Hd H; cbn in H.
+    - injection H as <- <-. split; auto. intros k [].
+    - destruct (dep_step v c h tk0 b d dp rest) as [cs1 d1] eqn:E1.
+      destruct (deps_steps v c h tk0 b d1 rest) as [cs2 d2'] eqn:E2. injection H as <- <-.
+      destruct (dep_step_deps_in _ _ _ _ _ _ H0 Hd E1) as [Hd1 Hk1].
+      destruct (IH _ _ _ H0 Hd1 E2) as [Hd2 Hk2]. split; auto.
+      intros k Hk. apply in_app_or in Hk. destruct Hk; auto.
+  Qed.
+
+  Lemma read_page_deps_in : forall tk cs tk1 more,
+    deps_in h tk -> read_page v c h tk b = (cs, tk1, more) ->
+    deps_in h tk1 /\ forall k, In k cs -> deps_in h (k_tok k).
+  Proof.
+    intros tk cs tk1 more H0 H. unfold read_page in H.
+    destruct (deps_steps v c h tk b tk (c_deps c)) as [csd d] eqn:Ed.
+    destruct (changes (feed_of h (c_main c)) (t_main tk) b (c_latest c)) as [[vs sk] cont].
+    injection H as <- <- _. destruct (deps_steps_deps_in _ _ _ _ _ H0 H0 Ed) as [Hd Hk].
+    split; [exact Hd|]. intros k Hin. apply in_app_or in Hin. destruct Hin as [Hin|[<-|[]]]; auto.
+  Qed.
+
+  Lemma inc_pages_deps_in : forall fuel tk, deps_in h tk ->
+    forall k, In k (inc_pages v c h b fuel tk) -> deps_in h (k_tok k).
+  Proof.
+    induction fuel as [|fuel IH]; intros tk H0 k Hk; cbn [inc_pages] in Hk; [destruct Hk|].
+    destruct (read_page v c h tk b) as [[cs tk'] more] eqn:Ep.
+    destruct (read_page_deps_in _ _ _ _ H0 Ep) as [H1 Hks].
+    destruct more; auto. apply in_app_or in Hk. destruct Hk; auto. eapply IH; eauto.
+  Qed.
+End More.
+
+
+Section More2.
+  Variables (v : variant) (c : cfg) (h : hub) (b : nat).
+  Hypothesis Hs : f_shared v = SharedSnapshot.
+  Hypothesis Hp : f_prev v = PrevFeed.
+  Hypothesis Hsk : c_latest c = true -> f_skip v = SkipPrev.
+  Hypothesis Hb : (1 <= b)%nat.
+
+  Lemma inc_pages_tok_ge : forall fuel tk, tok_ok tk ->
+    forall k, In k (inc_pages v c h b fuel tk) -> forall ds, dtok tk ds <= dtok (k_tok k) ds.
+  Proof.
+    induction fuel as [|fuel IH]; intros tk Hok k Hk ds; cbn [inc_pages] in Hk; [destruct Hk|].
+    destruct (read_page v c h tk b) as [[cs tk'] more] eqn:Ep.
+    pose proof Hok as [H1 H2].
+    destruct (page_safe v c h tk b Hs Hp Hsk Hb H1 H2 _ _ _ Ep) as (_ & Hd & _ & Hks & _).
+    pose proof (cont_of_bounds c h tk b Hb H1 ds) as Hc.
+    assert (Hpage : forall k', In k' cs -> dtok tk ds <= dtok (k_tok k') ds).
+    { intros k' Hk'. destruct (Hks k' Hk' ds) as [->| ->]; lia. }
+    destruct more; auto. apply in_app_or in Hk. destruct Hk as [Hk|Hk]; auto.
+    assert (Hok' : tok_ok tk') by (eapply page_tok_ok; eauto).
+    specialize (IH tk' Hok' k Hk ds). destruct (Hd ds) as [E|E]; rewrite E in IH; lia.
+  Qed.
+
+  Lemma tok_after_In : forall pre tk, pre = [] /\ tok_after pre tk = tk \/ exists k, In k pre /\ tok_after pre tk = k_tok k.
+  Proof.
+    intros pre tk. destruct pre as [|k0 pre] using rev_ind; [left; auto|]. right. exists k0.
+    split; [apply in_or_app; right; now left|]. rewrite tok_after_app. reflexivity.
+  Qed.
+
+  (** main-dataset changes: whenever a call persists a main token, every processed change below it has been
+      handed over in this or an earlier call of the run *)
+  Lemma inc_pages_main_safe : forall fuel tk, tok_ok tk ->
+    (forall k, In k (inc_pages v c h b fuel tk) ->
+               t_main tk <= t_main (k_tok k) <= Z.max (t_main tk) (lenz (feed_of h (c_main c)))) /\
+    forall cs1 k cs2, inc_pages v c h b fuel tk = cs1 ++ k :: cs2 ->
+    forall p x, t_main tk <= p < t_main (k_tok k) -> nthz (feed_of h (c_main c)) p = Some x ->
+                skipped c (feed_of h (c_main c)) p x = false -> In (v_id x) (ents (cs1 ++ [k])).
+  Proof.
+    induction fuel as [|fuel IH]; intros tk Hok; cbn [inc_pages].
+    - split; [intros k []|]. intros cs1 k cs2 H. destruct cs1; discriminate.
+    - destruct (read_page v c h tk b) as [[cs tk'] more] eqn:Ep.
+      pose proof Hok as [H1 H2].
+      destruct (page_safe v c h tk b Hs Hp Hsk Hb H1 H2 _ _ _ Ep)
+        as (_ & _ & _ & _ & (cs0 & kl & Hcs & Hkl & _ & Hm0 & _ & _ & Hle & Hmax & _ & Hcov)).
+      assert (Hpage_b : forall k, In k cs -> t_main tk <= t_main (k_tok k) <= Z.max (t_main tk) (lenz (feed_of h (c_main c)))).
+      { intros k Hk. rewrite Hcs in Hk. apply in_app_or in Hk. destruct Hk as [Hk|[<-|[]]].
+        - rewrite (Hm0 _ Hk). lia.
+        - rewrite Hkl. lia. }
+      assert (Hpage : forall a k a2, cs = a ++ k :: a2 ->
+                forall p x, t_main tk <= p < t_main (k_tok k) -> nthz (feed_of h (c_main c)) p = Some x ->
+                            skipped c (feed_of h (c_main c)) p x = false -> In (v_id x) (ents (a ++ [k]))).
+      { intros a k a2 Hsp p x Hr Hx Hskip. rewrite Hcs in Hsp. apply app_split in Hsp.
+        destruct Hsp as [(b' & Hc0 & _)|(a' & -> & Hr')].
+        - exfalso. assert (In k cs0) by (rewrite Hc0; apply in_or_app; right; now left).
+          rewrite (Hm0 _ H) in Hr. lia.
+        - destruct a' as [|? [|? ?]]; cbn in Hr'; try discriminate. injection Hr' as <- <-.
+          rewrite app_nil_r, ents_app. apply in_or_app. right. unfold ents. cbn. rewrite app_nil_r.
+          apply (Hcov p x); auto. rewrite Hkl in Hr. exact Hr. }
+      destruct more.
+      + assert (Hok' : tok_ok tk') by (eapply page_tok_ok; eauto).
+        destruct (IH tk' Hok') as [IHb IHs]. split.
+        * intros k Hk. apply in_app_or in Hk. destruct Hk as [Hk|Hk]; auto. specialize (IHb k Hk). lia.
+        * intros cs1 k cs2 Hsp p x Hr Hx Hskip. apply app_split in Hsp.
+          destruct Hsp as [(b' & Hc0 & _)|(a' & -> & Hrest)].
+          { eapply Hpage; eauto. }
+          destruct (Z.lt_ge_cases p (t_main tk')) as [Hlt|Hge].
+          -- rewrite <- app_assoc, ents_app. apply in_or_app. left. rewrite Hcs.
+             apply (Hpage cs0 kl [] Hcs p x); auto. rewrite Hkl. lia.
+          -- rewrite <- app_assoc, ents_app. apply in_or_app. right. eapply IHs; eauto. lia.
+      + split; auto.
+  Qed.
+End More2.
+
+
